@@ -36,6 +36,29 @@ func faultSweep(sc *sim.Scenario, pairs bool, fn func(sc *sim.Scenario, res *sim
 	return
 }
 
+// unlockFaultSweep runs a scenario once per Unlock call with that call
+// reporting a failure (the lock is released all the same). C09's quantifier
+// names every Database invocation, so C09 and C10 enumerate these too; the
+// other fault-driven checks reason about persistence steps and do not.
+func unlockFaultSweep(sc *sim.Scenario, fn func(sc *sim.Scenario, res *sim.Result)) (runs int) {
+	base := sim.Run(sc)
+	for u := 1; u <= base.Unlocks; u++ {
+		c := cloneScenario(sc)
+		c.FailUnlockAt = []int{u}
+		fn(c, sim.Run(c))
+		runs++
+	}
+	return
+}
+
+// faultPlan names the fault plan of a scenario in fingerprints.
+func faultPlan(sc *sim.Scenario) string {
+	if len(sc.FailUnlockAt) > 0 {
+		return fmt.Sprintf("%v unlock%v", sc.FailAt, sc.FailUnlockAt)
+	}
+	return fmt.Sprint(sc.FailAt)
+}
+
 // parallel runs jobs on all cores.
 func parallel(jobs []func()) {
 	ch := make(chan func(), len(jobs))
@@ -114,12 +137,20 @@ func init() {
 							}
 						}
 						if locks > 0 {
-							r.NonTrivial(fmt.Sprintf("%s|%v", sc.Name, sc.FailAt))
+							r.NonTrivial(fmt.Sprintf("%s|%v", sc.Name, faultPlan(sc)))
 						}
 						r.Count("locks_observed", locks)
 						reportFindings(r, sc, res, lockMonitor(res))
 					})
 					r.Count("fault_runs", n-1)
+					if v == 0 {
+						r.Count("unlock_fault_runs", unlockFaultSweep(sc, func(sc *sim.Scenario, res *sim.Result) {
+							r.Eval(1)
+							observeLog(r, res)
+							r.NonTrivial(fmt.Sprintf("%s|%v", sc.Name, faultPlan(sc)))
+							reportFindings(r, sc, res, lockMonitor(res))
+						}))
+					}
 					if v == 0 && ce.Name == "inbox.Like" {
 						r.Sample(map[string]interface{}{"scenario": sc.Name, "request": sc.Requests[0].Body, "fault_plans": "none, then each of the fallible calls in turn"})
 					}
@@ -134,7 +165,7 @@ func init() {
 				faultSweep(sc, false, func(sc *sim.Scenario, res *sim.Result) {
 					r.Eval(1)
 					observeLog(r, res)
-					r.NonTrivial(fmt.Sprintf("%s|%v", sc.Name, sc.FailAt))
+					r.NonTrivial(fmt.Sprintf("%s|%v", sc.Name, faultPlan(sc)))
 					reportFindings(r, sc, res, lockMonitor(res))
 				})
 			})
@@ -165,13 +196,14 @@ func init() {
 						r.Count("borrowed_runs."+name, 1)
 						for _, e := range res.Log {
 							if e.Kind == "db.Lock" && !e.Injected {
-								r.NonTrivial(fmt.Sprintf("%s|%v", sc.Name, sc.FailAt))
+								r.NonTrivial(fmt.Sprintf("%s|%v", sc.Name, faultPlan(sc)))
 								break
 							}
 						}
 						reportFindings(r, sc, res, lockMonitor(res))
 					}
 					if i < nBorrowFault {
+						r.Count("unlock_fault_runs", unlockFaultSweep(sc, judge))
 						faultSweep(sc, false, judge)
 					} else {
 						judge(sc, sim.Run(sc))
